@@ -202,24 +202,164 @@ def extract_comb(repo):
     return out
 
 
+def _lin(n, what):
+    """integer linear combination of e_sei[..] / e_tei[..] accesses with index variables i, j
+    -> [(multiplier, tensor, (vars...))]; anything else (a re-used local name, another variable) fails closed"""
+    def access(a):
+        if not (isinstance(a, ast.Subscript) and isinstance(a.value, ast.Name) and a.value.id in ("e_sei", "e_tei")
+                and isinstance(a.slice, ast.Tuple)):
+            raise TranslateError("%s: expected e_sei[...] or e_tei[...], got %s" % (what, _dump(a)[:120]))
+        idx = []
+        for e in a.slice.elts:
+            if not (isinstance(e, ast.Name) and e.id in ("i", "j")):
+                raise TranslateError("%s: index %s is not i or j" % (what, _dump(e)[:60]))
+            idx.append(e.id)
+        want = 2 if a.value.id == "e_sei" else 4
+        if len(idx) != want:
+            raise TranslateError("%s: %s accessed with %d indices" % (what, a.value.id, len(idx)))
+        return a.value.id, tuple(idx)
+
+    def term(t, sign):
+        if isinstance(t, ast.BinOp) and isinstance(t.op, ast.Mult) and isinstance(t.left, ast.Constant):
+            return [(sign * _int(t.left, what),) + access(t.right)]
+        if isinstance(t, ast.BinOp) and isinstance(t.op, ast.Mult) and isinstance(t.right, ast.Constant):
+            return [(sign * _int(t.right, what),) + access(t.left)]
+        return [(sign,) + access(t)]
+
+    def expr(e, sign):
+        if isinstance(e, ast.BinOp) and isinstance(e.op, (ast.Add, ast.Sub)):
+            return expr(e.left, sign) + expr(e.right, sign if isinstance(e.op, ast.Add) else -sign)
+        if isinstance(e, ast.UnaryOp) and isinstance(e.op, ast.USub):
+            return expr(e.operand, -sign)
+        return term(e, sign)
+    return expr(n, 1)
+
+
+def _affine(n, what):
+    """2*p  or  2*q+1  ->  (multiplier, variable, offset)"""
+    off = 0
+    if isinstance(n, ast.BinOp) and isinstance(n.op, ast.Add):
+        off = _int(n.right, what)
+        n = n.left
+    if isinstance(n, ast.BinOp) and isinstance(n.op, ast.Mult) and isinstance(n.right, ast.Name):
+        return _int(n.left, what), n.right.id, off
+    if isinstance(n, ast.Name):
+        return 1, n.id, off
+    raise TranslateError("%s: index expression %s is not m*v+o" % (what, _dump(n)[:100]))
+
+
+def extract_hcb(repo):
+    t = parse(repo / "tangelo/toolboxes/qubit_mappings/hcb.py")
+    f = find_def(t, "hard_core_boson_operator")
+    out = {}
+    scale = [n for n in ast.walk(f) if isinstance(n, ast.AugAssign) and _name(n.target, "e_tei")]
+    if len(scale) != 1 or not isinstance(scale[0].op, ast.Mult):
+        raise TranslateError("hard_core_boson_operator: `e_tei *= <int>` not found exactly once")
+    out["tei_scale"] = _int(scale[0].value, "e_tei scale")
+    got = [_dump(n.value) for n in ast.walk(f) if isinstance(n, ast.Assign) and isinstance(n.targets[0], ast.Tuple)]
+    if got != ["Call(func=Attribute(value=Name(id='ferm_op', ctx=Load()), attr='get_coeffs', ctx=Load()), args=[], "
+               "keywords=[keyword(arg='spatial', value=Constant(value=True))])"]:
+        raise TranslateError("hard_core_boson_operator: the integrals are not read by ferm_op.get_coeffs(spatial=True)")
+    branch = [n for n in ast.walk(f) if isinstance(n, ast.If) and isinstance(n.test, ast.Compare)
+              and _name(n.test.left, "i") and isinstance(n.test.ops[0], ast.Eq) and _name(n.test.comparators[0], "j")]
+    if len(branch) != 1:
+        raise TranslateError("hard_core_boson_operator: the branch `if i == j` was not found exactly once")
+
+    def block(stmts, what):
+        """alternating  name = <linear expr> ; boson_op += BosonOperator(f"...", name)  ->  {template: linear expr}"""
+        res, env = {}, {}
+        for st in stmts:
+            if isinstance(st, ast.Assign) and len(st.targets) == 1 and isinstance(st.targets[0], ast.Name):
+                env[st.targets[0].id] = _lin(st.value, "%s.%s" % (what, st.targets[0].id))
+            elif isinstance(st, ast.AugAssign) and _name(st.target, "boson_op") and isinstance(st.op, ast.Add) \
+                    and isinstance(st.value, ast.Call) and _name(st.value.func, "BosonOperator") and len(st.value.args) == 2 \
+                    and isinstance(st.value.args[0], ast.JoinedStr) and isinstance(st.value.args[1], ast.Name):
+                tpl = ""
+                for part in st.value.args[0].values:
+                    if isinstance(part, ast.Constant):
+                        tpl += part.value
+                    elif isinstance(part, ast.FormattedValue) and isinstance(part.value, ast.Name):
+                        tpl += "{%s}" % part.value.id
+                    else:
+                        raise TranslateError("%s: unexpected f-string part" % what)
+                if st.value.args[1].id not in env:
+                    raise TranslateError("%s: coefficient %s is not assigned in the same block" % (what, st.value.args[1].id))
+                res[tpl] = env[st.value.args[1].id]
+            else:
+                raise TranslateError("%s: unexpected statement %s" % (what, _dump(st)[:120]))
+        return res
+    d = block(branch[0].body, "i==j")
+    o = block(branch[0].orelse, "i!=j")
+    if set(d) != {"{i}^ {i}"} or set(o) != {"{i}^ {j}", "{i}^ {i} {j}^ {j}"}:
+        raise TranslateError("hard_core_boson_operator: unexpected boson terms %s / %s" % (sorted(d), sorted(o)))
+    out["diag"], out["hop"], out["rep"] = d["{i}^ {i}"], o["{i}^ {j}"], o["{i}^ {i} {j}^ {j}"]
+
+    # spatial_from_spinorb: one_body_integrals[p, q] = one_body_coefficients[2*p, 2*q];
+    #                       two_body_integrals[p, q, r, s] = two_body_coefficients[2*p, 2*q+1, 2*r+1, 2*s]
+    c = parse(repo / "tangelo/toolboxes/molecular_computation/coefficients.py")
+    sf = find_def(c, "spatial_from_spinorb")
+    pats = {}
+    for n in ast.walk(sf):
+        if isinstance(n, ast.Assign) and isinstance(n.targets[0], ast.Subscript) and isinstance(n.value, ast.Subscript) \
+                and isinstance(n.targets[0].value, ast.Name) and isinstance(n.value.value, ast.Name):
+            tv = [getattr(e, "id", None) for e in n.targets[0].slice.elts]
+            aff = [_affine(e, "spatial_from_spinorb") for e in n.value.slice.elts]
+            if [v for _, v, _ in aff] != tv:
+                raise TranslateError("spatial_from_spinorb: source indices %s do not follow the target order %s" % (aff, tv))
+            pats[(n.targets[0].value.id, n.value.value.id)] = [(m, o) for m, _, o in aff]
+    want = {("one_body_integrals", "one_body_coefficients"): 2, ("two_body_integrals", "two_body_coefficients"): 4}
+    if set(pats) != set(want) or any(len(pats[k]) != v for k, v in want.items()):
+        raise TranslateError("spatial_from_spinorb: unexpected tensor assignments %s" % sorted(pats))
+    out["one"] = pats[("one_body_integrals", "one_body_coefficients")]
+    out["two"] = pats[("two_body_integrals", "two_body_coefficients")]
+    return out
+
+
+
 # last-known-good table constants (the values extracted from /repo when the check was built).  Used ONLY when the
 # translator no longer recognises the source, so that the correspondence and the oracles still run; the evidence
 # then says so.  On a recognised source everything is regenerated from /repo.
 FALLBACK = {"jkmn": {"sigma": ["X", "Y", "Z"], "base": 3, "sub": 1, "div": 2},
             "comb": {"base": [(0, False, (0, 0), False, (1, 1)), (1, False, (0, 1), False, (1, 0)),
                               (2, False, (0, 0), True, (1, 1)), (3, True, (0, 1), True, (1, 0))],
-                     "pairs": {(0, 0): "I", (1, 0): "X", (0, 1): "Z", "else": "Y"}}}
+                     "pairs": {(0, 0): "I", (1, 0): "X", (0, 1): "Z", "else": "Y"}},
+            "hcb": {"tei_scale": 2,
+                    "diag": [(2, "e_sei", ("i", "i")), (1, "e_tei", ("i", "i", "i", "i"))],
+                    "hop": [(1, "e_tei", ("i", "i", "j", "j"))],
+                    "rep": [(2, "e_tei", ("i", "j", "j", "i")), (-1, "e_tei", ("i", "j", "i", "j"))],
+                    "one": [(2, 0), (2, 0)], "two": [(2, 0), (2, 1), (2, 1), (2, 0)]}}
 
 
 def extract(repo):
-    return {"jkmn": extract_jkmn(repo), "comb": extract_comb(repo)}
+    return {"jkmn": extract_jkmn(repo), "comb": extract_comb(repo), "hcb": extract_hcb(repo)}
+
+
+def extract_parts(repo):
+    """each source file separately: (tables with FALLBACK entries where a part failed, {part: error})"""
+    out, errors = {}, {}
+    for part, fn in (("jkmn", extract_jkmn), ("comb", extract_comb), ("hcb", extract_hcb)):
+        try:
+            out[part] = fn(repo)
+        except Exception as e:
+            out[part] = FALLBACK[part]
+            errors[part] = str(e)
+    return out, errors
 
 
 def emit(t):
-    j, c = t["jkmn"], t["comb"]
+    j, c, h = t["jkmn"], t["comb"], t["hcb"]
+
+    def lin(l):
+        return "[%s]" % "; ".join("((%d)%%Z, %s %s)" % (m, "ASei" if ten == "e_sei" else "ATei",
+                                                       " ".join("II" if v == "i" else "JJ" for v in idx))
+                                   for m, ten, idx in l)
+
+    def pat(l):
+        return "[%s]" % "; ".join("(%d%%N, %d%%N)" % (m, o) for m, o in l)
     lines = ["(* generated by translator/encoding_tables.py from jkmn.py and combinatorial.py — do not edit *)",
              "From Coq Require Import NArith List Bool.",
-             "From Tangelo Require Import Pauli.Word Fermion.JKMN Fermion.Comb.",
+             "From Coq Require Import ZArith.",
+             "From Tangelo Require Import Pauli.Word Fermion.JKMN Fermion.Comb Fermion.HCB.",
              "Import ListNotations.",
              "Definition jkmn_tab_gen : jkmn_tab := mkJT [%s] %d%%N %d%%N %d%%N." % (
                  "; ".join(PAULI[x] for x in j["sigma"]), j["base"], j["sub"], j["div"]),
@@ -231,5 +371,8 @@ def emit(t):
              "(* int_to_tuple: Pauli for the bit pair (x, z) = (1,0), (0,1), (1,1) *)",
              "Definition comb_pairs_gen : pauli * pauli * pauli := (%s, %s, %s)." % (
                  PAULI[c["pairs"][(1, 0)]], PAULI[c["pairs"][(0, 1)]], PAULI[c["pairs"]["else"]]),
+             "(* hcb.py hard_core_boson_operator + coefficients.py spatial_from_spinorb: every tensor access *)",
+             "Definition hcb_tab_gen : hcb_tab := mkHT (%d)%%Z %s %s %s %s %s." % (
+                 h["tei_scale"], lin(h["diag"]), lin(h["hop"]), lin(h["rep"]), pat(h["one"]), pat(h["two"])),
              ""]
     return "\n".join(lines)
